@@ -6,6 +6,7 @@ import OtelVerif.Lemmas.C07NestOps
 import OtelVerif.Model.C07Prim
 import OtelVerif.Model.C07Msg
 import OtelVerif.Gen.PdataCensus
+import OtelVerif.Gen.PdataSlices
 /-!
 # C07 — data-model copy, move, remove and read-only operations have value semantics
 
@@ -818,6 +819,36 @@ theorem C07_nest_move_append (s : N.St) (rs o1 rd o2 c : Nat) (hro : (s.ro rs ||
     (N.step s (.moveAppend rs o1 rd o2 c)).1.h.wb = s.h.wb :=
   N.move_append_hdr s rs o1 rd o2 c hro h12
 
+/-! ### result of the non-copy operations on a NESTED target: the header is the pure list operation, the kept children read the same -/
+
+/-- `RemoveIf` on a container at any depth keeps exactly the unselected entries, in order, and each of them reads as before -/
+theorem C07_nest_remove_if_result (s : N.St) (hi : N.Inv s) (r o : Nat) (m : List Bool)
+    (ho : N.ownsList s.dep s.h (s.root r) o) (hro : s.ro r = false) :
+    ((N.step s (.removeIf r o m)).1.h.wl o).live = keep (s.h.wl o).live m ∧
+    ∀ kv ∈ (s.h.wl o).live, N.absV (N.step s (.removeIf r o m)).1.dep (N.step s (.removeIf r o m)).1.h kv.val = N.absV s.dep s.h kv.val := by
+  simp only [N.step, hro, Bool.false_eq_true, ↓reduceIte, N.upd_same, N.removeIfH, true_and]
+  exact N.kept_children_same hi r o ho _ (fun x hx _ => ⟨rfl, N.upd_other _ _ _ _ hx⟩)
+
+/-- `Map.Remove` on a map at any depth: the entry is replaced by the last one and the last slot dropped (`premove` shape), every entry reads as before -/
+theorem C07_nest_remove_result (s : N.St) (hi : N.Inv s) (r o k : Nat)
+    (ho : N.ownsList s.dep s.h (s.root r) o) (hro : s.ro r = false) :
+    (N.step s (.remove r o k)).1.h.wl o = N.removeKey (s.h.wl o) k ∧
+    ∀ kv ∈ (s.h.wl o).live, N.absV (N.step s (.remove r o k)).1.dep (N.step s (.remove r o k)).1.h kv.val = N.absV s.dep s.h kv.val := by
+  simp only [N.step, hro, Bool.false_eq_true, ↓reduceIte, N.upd_same, true_and]
+  exact N.kept_children_same hi r o ho _ (fun x hx _ => ⟨rfl, N.upd_other _ _ _ _ hx⟩)
+
+/-- `Put*` / `Set*` / `AppendEmpty` on a container at any depth: the header is `place` of the new value, every old entry reads as before -/
+theorem C07_nest_set_slot_result (s : N.St) (hi : N.Inv s) (r o : Nat) (sel : N.Sel) (x : N.NewV) (c : Nat) (hd : N.Hdr)
+    (ho : N.ownsList s.dep s.h (s.root r) o) (hro : s.ro r = false)
+    (hp : N.place ((N.mkNew s.h x).1.wl o) sel (N.mkNew s.h x).2 c = some hd) :
+    (N.step s (.setSlot r o sel x c)).1.h.wl o = hd ∧
+    ∀ kv ∈ (s.h.wl o).live, N.absV (N.step s (.setSlot r o sel x c)).1.dep (N.step s (.setSlot r o sel x c)).1.h kv.val = N.absV s.dep s.h kv.val := by
+  obtain ⟨d0, hd0⟩ : ∃ d, s.dep = d + 1 := ⟨s.dep - 1, by have := hi.pos; omega⟩
+  simp only [N.step, hro, Bool.false_eq_true, ↓reduceIte, hp, N.upd_same, true_and]
+  exact N.kept_children_same hi r o ho _ (fun y hy hlt => by
+    obtain ⟨a, b⟩ := (N.mkNew_spec s.h x d0).2.1 y hlt
+    exact ⟨a, by simp only [N.upd_other _ _ _ _ hy]; exact b⟩)
+
 /-- non-vacuity: a reachable nested state whose map has a stale slot beyond `len` aliasing a live nested
 map; the deep copy of a longer map into it is equal to its source and the two are independent -/
 def nestWitness : N.St :=
@@ -828,6 +859,9 @@ def nestWitness : N.St :=
     .setSlot 0 5 (.key 5) (.scalar 0 6) 0, .setSlot 0 5 (.key 6) (.list true) 0, .setSlot 0 8 (.key 1) (.bytes [6]) 0]
 
 example : (nestWitness.h.wl 0).live = [⟨3, .list true 3⟩, ⟨2, .scalar 0 5⟩] ∧ (nestWitness.h.wl 0).tail = [⟨3, .list true 3⟩] := by decide
+/-- the witness state satisfies the forest invariant (it is reached by a well-formed program of nested operations) -/
+example : N.Inv nestWitness := C07_nest_separation_all _ _ N.inv_init (by decide)
+
 example : N.Pre 3 nestWitness.h (nestWitness.root 0) (nestWitness.root 1) :=
   ⟨by decide, by decide, by decide, by decide, by decide⟩
 example : N.absRoot (N.step nestWitness (.copyVal 0 (.root 0) 1 (.root 1))).1 1 = N.absRoot nestWitness 0 := by decide
@@ -1031,6 +1065,24 @@ theorem C07_census_delegating_reviewed :
   decide
 
 theorem C07_census_nonvacuous : 400 ≤ Gen.PdataCensus.nGuarded ∧ 300 ≤ Gen.PdataCensus.nReaders := by decide
+
+/-- tightened census (audit follow-up): every guarded mutator asserts the RIGHT state (`CopyTo`: the destination's; `MoveTo` /
+`MoveAndAppendTo`: the receiver's, then the destination's; every other mutator: the receiver's); no reader asserts mutability
+anywhere in its body ("readers keep working"); every child wrapper an accessor builds gets the parent's own state (in `CopyTo`:
+source-side wrappers the receiver's, destination-side wrappers the destination's), over all child constructions found -/
+theorem C07_census_right_state :
+    Gen.PdataCensus.wrongAssert = [] ∧ Gen.PdataCensus.readerAsserts = [] ∧ Gen.PdataCensus.badChildState = [] ∧
+    200 ≤ Gen.PdataCensus.nChildCtors := by decide
+
+/-- regenerated by `translators/cmd/pdataslices`, which FAILS unless every function of every `generated_*slice.go` is textually the
+template instance (slice / element / origin names replaced): all generated slices are instances of the two element-slice templates,
+all primitive slices (and their internal wrappers) of the primitive template; the one reviewed exception is the stale
+`pcommon.IntSlice`, which lacks `All` and `Equal` (both readers) but is otherwise the template -/
+theorem C07_slices_template_instances :
+    25 ≤ Gen.PdataSlices.elemSlices.length ∧
+    (∀ e ∈ Gen.PdataSlices.elemSlices, e.2.2.2 = "ptr" ∨ e.2.2.2 = "value") ∧
+    6 ≤ Gen.PdataSlices.primSlices.length ∧
+    Gen.PdataSlices.incomplete = [("pcommon", "IntSlice", "All,Equal")] := by decide
 
 /-! ## the pinned `CopyTo` does not have the property (what the repair is for) -/
 
